@@ -473,6 +473,11 @@ func c15r7(c *Ctx) {
 	qf := p.Field(pkgKubeCtl, "PodCache", "queueEndpointEvent")
 	nr := p.Field(pkgKubeCtl, "PodCache", "needResync")
 	n := 0
+	fns := []*ssa.Function{fn}
+	for _, h := range helperCalls(fn) {
+		fns = append(fns, h.callee)
+	}
+	for _, fn := range fns {
 	for _, l := range rangeLoops(fn) {
 		if l.Over == nil {
 			continue
@@ -502,6 +507,7 @@ func c15r7(c *Ctx) {
 		}
 		c.Check("addPod: every replay taken out of needResync is queued", pos, !found,
 			"a pass of the loop over the drained needResync entry can finish without queueing the endpoint event: the entry was deleted as a whole before the loop, so the skipped EndpointSlice has lost its pending replay - when its own Pod arrives later on the same IP there is nothing left to replay, and the service keeps an endpoint set a cold start would not produce")
+	}
 	}
 	c.Check("addPod drains needResync in a loop", fn.Pos(), n == 1, "no loop over the needResync entry of the pod's IP found in addPod")
 	c.Floor(2)
